@@ -1400,6 +1400,10 @@ def target_worker_thread(host: str, port: int, shared_aconf: AuditConf) -> Tuple
     try:
         ret = audit(out, my_aconf, print_target=True)
         string_output = out.get_buffer()
+    except SystemExit as e:
+        # Some error paths end the scan through sys.exit().  In a worker thread this must only end the scan of this one target, not the whole run (the exception would otherwise be re-raised in the main thread).
+        ret = e.code if isinstance(e.code, int) else exitcodes.UNKNOWN_ERROR
+        string_output = out.get_buffer()
     except Exception:
         ret = -1
         string_output = "An exception occurred while scanning %s:%d:\n%s" % (host, port, str(traceback.format_exc()))
